@@ -10,7 +10,7 @@ namespace Piqp.C09
 
 variable {K : Type}
 variable [Add K] [Sub K] [Mul K] [Div K] [Neg K] [Zero K] [One K] [LT K] [DecidableLT K] [LE K] [DecidableLE K]
-variable [NatCast K] [DecidableEq K]
+variable [NatCast K] [BEq K]
 variable {n p m : Nat}
 
 /-- whenever the loop head returns a status, `info.status` is that status -/
